@@ -127,11 +127,13 @@ PROPS = {
     },
     "C06": {
         "family": _c06, "kani": False, "engine": "verus",
-        "bounds": {"quick": "structs named/tuple/unit n<=3 x type name {default, custom, disabled} x named_field {default, flipped} x up to 6 field assignments over {plain, ignore, renamed key}; enums: 10 variant-kind combinations x enum name {off, on, renamed} x 3 variant-name rotations {default, disabled, custom} with named_field flips; every spelling of each parameter in rotation",
+        "bounds": {"quick": "custom-method fields and the nameless map form (42 structs, 2 enums); structs named/tuple/unit n<=3 x type name {default, custom, disabled} x named_field {default, flipped} x up to 6 field assignments over {plain, ignore, renamed key}; enums: 10 variant-kind combinations x enum name {off, on, renamed} x 3 variant-name rotations {default, disabled, custom} with named_field flips; every spelling of each parameter in rotation",
                    "thorough": "n<=4, all field assignments; +60 sampled enums"},
         "trusted": ["assume_specification for Formatter::{write_str, debug_struct, debug_tuple}, DebugStruct::{field, finish}, DebugTuple::{field, finish}: they thread an uninterpreted call trace",
+                    "assume_specification for Formatter::debug_map, DebugMap::{entry, finish}",
                     "two axioms about core::fmt: a builder finished with no field writes exactly its name"],
-        "assumptions": ["partial: fields with a custom method and the nameless struct-style (debug_map) form are outside Verus' subset (items declared inside fn fmt) and are NOT decided",
+        "assumptions": ["custom-method fields (u8) and the nameless struct-style (debug_map) form declare helper items inside fn fmt, which Verus rejects; they are brought in by a mechanical hoisting transform (items cut out verbatim into `mod hoisted`, made pub, block-local names numbered, an ensures added on their own fmt) plus one ASSUMED bridging axiom per helper type (the dyn identity of an Educe__RawString value is its string; of an Educe__DebugField value it is (method, field value)); the helper's own fmt is verified against the method's contract",
+                        "nameless tuple-style enum variants are outside the family (they do not compile on the pinned tree, C01)",
                         "byte-identity with #[derive(Debug)] is not checked directly; it follows from the oracle being std's documented builder sequence",
                         "no Kani side: core::fmt does not terminate under CBMC (measured > 15 min for one struct); a failed obligation is replayed natively ({:?} and {:#?} against core::fmt's builders on the effective shape)"],
         "explanation": "generated Debug::fmt verified verbatim: its builder-call trace (for every formatter state, hence compact and pretty) equals the effective shape's",
